@@ -34,7 +34,7 @@ func init() {
 	register(&propDef{
 		ID:       "C26",
 		Title:    "BungeeCord messaging channel behaves like BungeeCord",
-		Patterns: []string{"./pkg/edition/java/proxy/bungeecord", "./pkg/edition/java/proto/util"},
+		Patterns: []string{"./pkg/edition/java/proxy/bungeecord", "./pkg/edition/java/proto/util", "./pkg/edition/java/proxy"},
 		Run:      runC26,
 		Rule: "dispatch: Process compares the sub-channel with every name of the BungeeCord table and the branch taken for a name reaches (through static calls and local closures) " +
 			"a response whose first UTF is that same name; layout: the util.Write* sequence that fills each response buffer equals the table's layout and the buffer is what is handed " +
@@ -83,6 +83,8 @@ func runC26(c *Ctx) {
 		return
 	}
 	c.Analysed(proc)
+	// the provider adapter (package proxy) hands the responder its servers / players as interfaces
+	checkNoTypedNil(c, "unknown-is-nil", c.P.Funcs(Mod+"/"+pkgProxy), "proxy/bungeecord")
 
 	// ---- responses: per function tree, the Write* sequence into the buffer handed to sendServerResponse
 	type response struct {
